@@ -340,6 +340,14 @@ def gen(repo):
     emit(f"Definition command_list_end : bytes := {coq_bytes(rust_str(m.group(1)))}.")
     vc = body_of(cs, r"fn is_valid_command_char\(c: char\) -> bool\s*\{", "is_valid_command_char")
     emit(f"Definition command_charset (c : N) : bool := {translate_pred(vc, 'c', 'is_valid_command_char')}.")
+    if re.search(r"fn is_valid_first_command_char\(c: char\) -> bool", cs):
+        vf = body_of(cs, r"fn is_valid_first_command_char\(c: char\) -> bool\s*\{", "is_valid_first_command_char")
+        vp = body_of(cs, r"fn validate_command_part\(command: &str\) -> Result<\(\), CommandErrorKind>\s*\{", "validate_command_part")
+        if "command.chars().next().filter(|c|!is_valid_first_command_char(*c))" not in norm(vp):
+            raise TranslatorError("validate_command_part: first-character check has changed shape")
+        emit(f"Definition command_first_charset (c : N) : bool := {translate_pred(vf, 'c', 'is_valid_first_command_char')}.")
+    else:
+        emit("Definition command_first_charset (c : N) : bool := command_charset c.")
     se = body_of(cs, r"fn should_escape\(c: char\) -> bool\s*\{", "should_escape")
     emit(f"Definition should_escape (c : N) : bool := {translate_pred(se, 'c', 'should_escape')}.")
     cl = body_of(cs, r"fn is_command_list_command\(command: &str\) -> bool\s*\{", "is_command_list_command")
